@@ -10,11 +10,14 @@ Definition obind {A B} (x : option A) (f : A -> option B) : option B :=
 Notation "'do' x <- e ; k" := (obind e (fun x => k))
   (at level 200, x name, e at level 100, k at level 200).
 
-Fixpoint omap {A B} (f : A -> option B) (l : list A) : option (list B) :=
-  match l with
-  | [] => Some []
-  | x :: r => do y <- f x; do ys <- omap f r; Some (y :: ys)
-  end.
+Section OMap.
+  Context {A B : Type} (f : A -> option B).
+  Fixpoint omap (l : list A) : option (list B) :=
+    match l with
+    | [] => Some []
+    | x :: r => do y <- f x; do ys <- omap r; Some (y :: ys)
+    end.
+End OMap.
 
 (* -- decimal print/parse of integers (Python "%s" % int  and  int(str)) ---- *)
 Definition print_dec (z : Z) : string := NilZero.string_of_int (Z.to_int z).
